@@ -50,11 +50,17 @@ META = {
 }
 
 TEXT = '''
-model Leaf Real x; equation x = 1 "Leaf0"; end Leaf;
-model Mid Leaf l; Real y; equation y = l.x "Mid0"; end Mid;
-model Top extends Mid; Real z; equation z = y "Top0"; end Top;
+function f input Real u; output Real v; algorithm v := 2 * u; end f;
+model Leaf Real x; end Leaf;
+model Mid Leaf l; Real y; equation y = f(l.x) "Mid0"; end Mid;
+model Top extends Mid; Bare b; Real z; equation z = y "Top0"; end Top;
+model Bare end Bare;
 '''
-CLASSES = ["Leaf", "Mid", "Top"]
+# equations that the edits add are taken from a freshly parsed donor class (E1 calls the user function f)
+DONOR = '''
+model Donor Real x; equation x = f(2.0) "E1"; x = 7 "E2"; initial equation x = 0 "I1"; end Donor;
+'''
+CLASSES = ["f", "Leaf", "Mid", "Top", "Bare"]
 EXPLAINS, NOT_EXPLAINS = "asbuilt:explains", "asbuilt:does-not-explain"
 DEV_HERE, SAME_HERE = "asbuilt:deviates-here", "asbuilt:same-here"
 
@@ -96,12 +102,19 @@ class Adapter:
         elif a == "remove_symbol":
             cls.remove_symbol(cls.symbols[act["s"]])
         elif a == "add_equation":
-            cls.add_equation(ast.Equation(left=ast.Primary(value=7), right=ast.Primary(value=7), comment=act["e"]))
+            cls.add_equation(donor_equation(act["e"]))
         elif a == "remove_equation":
             eqs = [e for e in cls.equations if e.comment == act["e"]]
             if not eqs:
                 raise LookupError("equation %s is not in class %s of this tree" % (act["e"], act["c"]))
             cls.remove_equation(eqs[0])
+        elif a == "add_initial_equation":
+            cls.add_initial_equation(donor_equation(act["e"]))
+        elif a == "remove_initial_equation":
+            eqs = [e for e in cls.initial_equations if e.comment == act["e"]]
+            if not eqs:
+                raise LookupError("initial equation %s is not in class %s of this tree" % (act["e"], act["c"]))
+            cls.remove_initial_equation(eqs[0])
         else:
             raise MachineryError("unknown action %r" % (act,))
 
@@ -132,18 +145,33 @@ class Adapter:
                 for t in self.trees]
 
 
+def donor_equation(tag):
+    d = ct.fresh_tree(DONOR).classes["Donor"]
+    for e in d.equations + d.initial_equations:
+        if e.comment == tag:
+            return e
+    raise MachineryError("no donor equation %r" % tag)
+
+
 def flat_obs(tree, c):
+    """flat model of class c: symbol names, equation / initial-equation tags, and the flattened user functions
+    that come with it (name -> symbol names)"""
     from pymoca import ast, tree as ptree
     try:
         r = ptree.flatten(tree, ast.ComponentRef(name=c))
     except Exception as e:
-        return {"ok": False, "err": type(e).__name__, "syms": [], "eqs": []}
-    fc = list(r.classes.values())[-1]
-    return {"ok": True, "err": "", "syms": sorted(fc.symbols), "eqs": sorted(str(e.comment) for e in fc.equations)}
+        return {"ok": False, "err": type(e).__name__, "syms": [], "eqs": [], "ieqs": [], "funcs": {}}
+    names = list(r.classes)
+    fc = r.classes[names[-1]]
+    return {"ok": True, "err": "", "syms": sorted(fc.symbols), "eqs": sorted(str(e.comment) for e in fc.equations),
+            "ieqs": sorted(str(e.comment) for e in fc.initial_equations),
+            "funcs": {n: sorted(r.classes[n].symbols) for n in names[:-1]}}
 
 
 def norm(x):
-    return {"ok": bool(x["ok"]), "syms": sorted(x["syms"]), "eqs": sorted(x["eqs"])}
+    fs = x.get("funcs") or {}
+    return {"ok": bool(x["ok"]), "syms": sorted(x["syms"]), "eqs": sorted(x["eqs"]), "ieqs": sorted(x.get("ieqs", [])),
+            "funcs": {k: sorted(v) for k, v in fs.items()} if isinstance(fs, dict) else {}}
 
 
 def diff_obs(want, got):
@@ -309,7 +337,7 @@ def run(ctx):
     # ---- 1. TLC: property on the spec -----------------------------------------------------------------
     # quick: the variant that matches how tree.flatten of this tree looks the class up; thorough: both, plus the
     # explicit as-built counterexample run (in quick the non-empty DEV log below is the evidence that as-built deviates)
-    cfgs = ("ClassTreeCopy_intended.cfg", "ClassTreeCopy_intended_topcopy.cfg") if thorough else ("ClassTreeCopy_intended%s.cfg" % variant,)
+    cfgs = ("ClassTreeCopy_intended.cfg", "ClassTreeCopy_intended_topcopy.cfg") if thorough else ("ClassTreeCopy_intended%s_q.cfg" % variant,)
     for cfg in cfgs:
         r = tlc.run("ClassTreeCopy", cfg, workers=min(procs, 8))
         ctx.add_tlc(r, "intended: PointerSemanticsIsValueSemantics, ParentClosed, NoRaise, Independence, CopyFaithful; histories <= 4, 3 trees")
@@ -334,24 +362,27 @@ def run(ctx):
     if len(dev_hist) < 20:
         raise MachineryError("only %d as-built deviation histories - DEV log broken?" % len(dev_hist))
     dev_ev = eval_histories(ctx, dev_hist, "ClassTreeCopyTrace_intended.cfg", "expected observations for the %d directed histories" % len(dev_hist))
-    rg = tlc.run("ClassTreeCopy", "ClassTreeCopy_graph3s.cfg", workers=1, timeout=1800)
-    ctx.add_tlc(rg, "intended state graph, 3 trees, small edit universe, TR-log")
-    if rg.violated:
-        raise MachineryError("graph run violates %s" % rg.violated)
-    # the 2-tree graph is the sub-graph of the 3-tree graph on states with at most two trees
-    two = [e for e in rg.tr() if len(e["dst"]["val"]) <= 2]
-    # (name, graph, share of the tour that is replayed): quick replays the complete 2-tree graph and a seeded
-    # quarter of the 3-tree tour; thorough replays everything
-    graphs = [("g2s", graph.Graph(two), 1.0), ("g3s", graph.Graph(rg.tr()), 1.0 if thorough else 0.25)]
+    # value-state graphs (TR-log) of three edit universes:
+    #   u1 (3 trees): symbols on Leaf / Mid, equation E1 on Leaf, remove / re-add class Leaf
+    #   u2 (2 trees): additions to EMPTY containers (symbol on Bare, equation on Leaf, initial equation on Top) and
+    #                 edits of the called function f
+    #   u3 (3 trees): Bare / f edits with copies of copies
+    # quick: u1 with 2 trees, u2, u3 - each replayed completely; thorough: u1 with 3 trees as well
+    graphs = []
+    cfgs = [("u1-2trees", "ClassTreeCopy_graph2_u1.cfg"), ("u2", "ClassTreeCopy_graph2_u2.cfg"), ("u3", "ClassTreeCopy_graph3_u3.cfg")]
     if thorough:
-        r2 = tlc.run("ClassTreeCopy", "ClassTreeCopy_graph2.cfg", workers=1, timeout=1800)
-        ctx.add_tlc(r2, "intended state graph, 2 trees, full edit universe, TR-log")
-        graphs.append(("g2full", graph.Graph(r2.tr()), 1.0))
+        cfgs.append(("u1-3trees", "ClassTreeCopy_graph3_u1.cfg"))
+    for name, cfg in cfgs:
+        rg = tlc.run("ClassTreeCopy", cfg, workers=1, timeout=1800)
+        ctx.add_tlc(rg, "intended value-state graph, edit universe %s, TR-log" % name)
+        if rg.violated:
+            raise MachineryError("graph run %s violates %s" % (cfg, rg.violated))
+        graphs.append((name, graph.Graph(rg.tr()), 1.0))
     global _ITEMS
     _ITEMS = []
     kinds = []
     for h, ev in zip(dev_hist, dev_ev):
-        _ITEMS.append((h, [e["expect"] for e in ev], True))
+        _ITEMS.append((h, [e["expect"] for e in ev], thorough or len(_ITEMS) % 4 == 0))
         kinds.append("asbuilt-directed")
     gstats = {}
     import random
@@ -362,7 +393,7 @@ def run(ctx):
             raise MachineryError("tour covered %d of %d transitions" % (len(covered), g.n_edges()))
         if share < 1.0:
             tour = rng.sample(tour, max(1, int(len(tour) * share)))
-        walks = g.random_walks(40 if not thorough else 300, 25, ctx.seed + 3)
+        walks = g.random_walks(10 if not thorough else 150, 25, ctx.seed + 3)
         gstats[name] = {"states": g.n_states(), "transitions": g.n_edges(), "tour_paths_replayed": len(tour),
                         "tour_share": share, "walks": len(walks)}
         for kind, plist in (("tour", tour), ("walk", walks)):
@@ -395,7 +426,8 @@ def run(ctx):
         if kind.endswith("tour"):
             ctx.sample({"kind": kind, "history": acts[:5], "expected_after_step_5": expects[min(4, len(expects) - 1)],
                         "deviation": res["fail"]["detail"][:300] if res["fail"] else None}, limit=3)
-    for a in ("deepcopy", "add_symbol", "remove_symbol", "add_equation", "remove_equation", "add_class", "remove_class"):
+    for a in ("deepcopy", "add_symbol", "remove_symbol", "add_equation", "remove_equation", "add_initial_equation",
+              "remove_initial_equation", "add_class", "remove_class"):
         if not cov["actions"].get(a):
             raise MachineryError("vacuous: action %s never replayed" % a)
     if not cov["copy_of_copy"]:
@@ -425,8 +457,8 @@ def run(ctx):
         "in-place rewriting (C05) cannot leak into this check; one flatten pass on the live trees ends every history",
         "two failing flattens count as equal regardless of the exception type",
     ]
-    return {"exhaustive": True if thorough else False,
-            "explanation": "2-tree graph replayed completely; 3-tree graph: %s of the transition tour" % ("all" if thorough else "a seeded quarter")}
+    return {"exhaustive": True,
+            "explanation": "every transition of the value-state graphs u1 (%s trees), u2 (2 trees), u3 (3 trees) replayed" % ("2 and 3" if thorough else "2")}
 
 
 # ---------------------------------------------------------------------------------------------
